@@ -183,7 +183,9 @@ func learnNilness(succ *ssa.BasicBlock, pred *ssa.BasicBlock, table nilnessTable
 	// Both operands are known of nilness.
 	// Determine whether the branch is reachable.
 	if xnil != unknown && ynil != unknown {
-		if (xnil == ynil && succ == eqSucc) || (xnil != ynil && succ == neSucc) {
+		// The equal edge needs operands of the same nilness; the not-equal edge is unreachable only when both
+		// operands are nil (two non-nil values can well be different).
+		if (xnil == ynil && succ == eqSucc) || (!(xnil == isnil && ynil == isnil) && succ == neSucc) {
 			return lTable, true
 		}
 		// conflict
